@@ -14,13 +14,20 @@ class _Base:
             for order in ([list(present)] if len(present) < 2 else [list(present), list(reversed(present))]):
                 for cur in keys:
                     yield {"present": order, "current": cur}
+                    if self.meth == "__call__" and cur not in order:
+                        # interference: while the factory runs, another thread sharing the scope completes its own call
+                        yield {"present": order, "current": cur, "race": True}
 
     def build(self, desc):
         created = []
 
+        competing = ("competing-session",) if desc.get("race") else None
+
         def create():
             o = object()
             created.append(o)
+            if competing is not None:
+                reg.registry.setdefault(desc["current"], competing)     # the other thread won the race
             return o
         reg = ScopedRegistry(create, lambda: desc["current"])
         for k in desc["present"]:
@@ -28,6 +35,7 @@ class _Base:
         fn = getattr(reg, self.meth)
         args = (("new",),) if self.nargs else ()
         bind = {"obj": args[0]} if self.nargs else {}
+        bind["competing"] = competing
         uni = list(desc["present"]) + ["k0", "k1", "k2"]
         return CallSpec(fn, bind, args=args, self_obj=reg, universe=list(dict.fromkeys(uni)))
 
